@@ -16,6 +16,7 @@ import ast
 from ..core import Ctx, Rule
 from ..facts import ShapeError, call_name, calls_in, dotted, kwarg, norm, walk_no_nested
 from ..tables import Inst, Opaque, decide
+from .gensym_rules import GENSYM, IDENT, fresh_names_rule
 from .hoist_rules import Hoister, hoist_mask_rule
 
 INLINE = 'fpy2/transform/func_inline.py'
@@ -271,6 +272,7 @@ RULES = [
     Rule('C09.S1', 'FuncInline refuses calls in conditionally or repeatedly evaluated positions', hoist_mask_rule([INLINE_HOISTER], 'C09.S1'), 11, 'S,X'),
     Rule('C09.T1', 'callee context rule: declared / with-header (REAL) / ambient', t1_callee_context, 4, 'T'),
     Rule('C09.P1', 'arguments bound in order before the body; callee locals renamed; conflicts and multi-return refused', p1_binding_and_renaming, 9, 'P,F'),
+    Rule('C09.P2', 'the fresh-name generator never hands out a name it holds (identifier hash / equality / retry loop)', fresh_names_rule, 9, 'P'),
     Rule('C09.G1', 'a refused call site consumes no index', g1_refusal_before_index, 2, 'G'),
     Rule('C09.G2', 'LiftContext / FreeVarElim / Monomorphize change only what they state', g2_lift_close_pin, 14, 'G'),
 ]
@@ -295,6 +297,19 @@ MUTANTS = [
     Mutant('header-arg-bind-not-emitted', INLINE, "                ctx.stmts.append(bind)", "                pass", 'C09.P1'),
     Mutant('header-args-always-wrapped', INLINE, "                if ctx.is_ctx_expr and not isinstance(arg, Var):", "                if ctx.is_ctx_expr:", 'C09.T1',
            'wrapping a plain variable read as well rounds nothing more: behaviour-preserving', expect='silent'),
+    Mutant('gensym-stale-hash', GENSYM, "            ident._hash = None  # cached for the previous count\n", "", 'C09.P2',
+           'the defect repaired by the fix: commit (F37)'),
+    Mutant('gensym-reset-before-store', GENSYM, "            ident.count = self._counter\n            ident._hash = None  # cached for the previous count\n",
+           "            ident._hash = None\n            ident.count = self._counter\n", 'C09.P2', 'same behaviour: nothing hashes the object between the two statements', expect='silent'),
+    Mutant('gensym-tests-generated-only', GENSYM, "        while ident in self._idents:", "        while ident in self._generated:", 'C09.P2'),
+    Mutant('gensym-name-not-held', GENSYM, "        self._idents.add(ident)\n        self._generated.add(ident)", "        self._generated.add(ident)", 'C09.P2'),
+    Mutant('gensym-fresh-skips-loop', GENSYM, "        return self.refresh(NamedId(prefix))", "        return NamedId(prefix)", 'C09.P2'),
+    Mutant('gensym-reserve-elsewhere', GENSYM, "            self._idents.add(ident)\n\n    def refresh", "            self._generated.add(ident)\n\n    def refresh", 'C09.P2'),
+    Mutant('gensym-renames-in-place', GENSYM, "        ident = self._copy_id(ident)\n        while", "        while", 'C09.P2'),
+    Mutant('gensym-counter-stuck', GENSYM, "            self._counter += 1\n", "", 'C09.P2'),
+    Mutant('ident-eq-ignores-count', IDENT, "            and self.base == other.base\n            and self.count == other.count", "            and self.base == other.base", 'C09.P2'),
+    Mutant('ident-hash-base-only', IDENT, "self._hash = hash((self.base, self.count))", "self._hash = hash(self.base)", 'C09.P2',
+           'a coarser hash is still consistent with equality', expect='silent'),
     Mutant('args-bound-after-body', INLINE, "        # bind the return value to a fresh variable and splice into the current block\n        t = self.gensym.fresh('t')\n        _replace_ret(ast.body, t)",
            "        t = self.gensym.fresh('t')", 'C09.P1'),
     Mutant('callee-locals-not-renamed', INLINE, "            if isinstance(d, AssignDef) and not d.is_free:\n                subst[d.name] = self.gensym.refresh(d.name)", "            if False:\n                subst[d.name] = self.gensym.refresh(d.name)", 'C09.P1'),
